@@ -137,7 +137,7 @@ contract(f'{TC}::TrajectoryCalc._integrate', props=INTEGRATE_PROPS,
          loops={0: LoopContract(
              invariants=INV, entry=ENTRY, step=STEP,
              hypotheses_end=[('H-fwd-the-projectile-keeps-moving-down-range', 'range_vector.x >= head(range_vector.x)')],
-             lemmas_end=[('time-step-is-positive', 'delta_time > 0')],
+             lemmas_end=[('time-advances', 'time > head(time)')],   # about the state, not about the temporary delta_time
              independent=[('what-is-recorded-never-changes-what-is-computed', PHYSICS, RECORDING)],
              types={'ranges': ListOf(ROW).alternatives()[0], 'filter': Flags(), 'current_flag': Flags(),
                     'seen_zero': Flags()})},
